@@ -35,6 +35,7 @@ type thread struct {
 	fn      Value
 	args    []Value
 	native  func()
+	daemon  bool // parked on a channel that may never become ready (ticker loops)
 }
 
 type msgKind int
@@ -167,6 +168,15 @@ func (e *Engine) schedule() {
 					sites = append(sites, t.site)
 				}
 			}
+			allDaemon := true
+			for _, t := range ts.all {
+				if !t.done && !t.daemon {
+					allDaemon = false
+				}
+			}
+			if allDaemon && ts.all[0].done {
+				return
+			}
 			sort.Strings(sites)
 			e.reportEvent("deadlock", "deadlock: "+strings.Join(sites, " | "), "all unfinished threads are blocked")
 			panic(&abortSignal{kind: abortViolation})
@@ -294,7 +304,7 @@ func (e *Engine) waitAll() {
 	me := e.th.cur
 	e.blockUntil("verifrt.WaitAll", func() bool {
 		for _, t := range e.th.all {
-			if t != me && !t.done {
+			if t != me && !t.done && !t.daemon {
 				return false
 			}
 		}
@@ -525,14 +535,43 @@ func (e *Engine) chanClosed(ch *Chan) {
 }
 
 func (e *Engine) blockOnChan(ch *Chan) bool {
-	if !e.multi() {
+	if e.th == nil || !e.job.Threads {
 		return false
 	}
-	e.blockUntil("chan receive", func() bool { return len(ch.Buf) > 0 || ch.Closed })
+	e.blockUntilDaemon("chan receive", func() bool { return len(ch.Buf) > 0 || ch.Closed })
 	return true
 }
 
-func (e *Engine) blockOnSelect(fr *frame) bool { return false }
+// blockUntilDaemon is blockUntil for waits on channels: the thread counts as a
+// daemon while parked (it does not make the scheduler report a deadlock).
+func (e *Engine) blockUntilDaemon(site string, cond func() bool) {
+	for !cond() {
+		t := e.th.cur
+		t.site = site
+		t.blocked = cond
+		t.daemon = true
+		e.park()
+		t.daemon = false
+	}
+}
+
+// blockOnSelect parks the thread until one of the select's channels is ready.
+// A thread parked forever on a ticker that never fires is not a deadlock as
+// long as the main thread can finish (like a janitor goroutine in a real program).
+func (e *Engine) blockOnSelect(chans []*Chan) bool {
+	if e.th == nil || !e.job.Threads {
+		return false
+	}
+	e.blockUntilDaemon("select", func() bool {
+		for _, c := range chans {
+			if c != nil && (len(c.Buf) > 0 || c.Closed) {
+				return true
+			}
+		}
+		return false
+	})
+	return true
+}
 
 // syncAcqRel models a synchronising operation on an object (sync.Map
 // operations, context cancel/Done): acquire then release on the object's clock.
